@@ -432,3 +432,171 @@ Proof.
   - eexists. split; [vm_compute; reflexivity | split; vm_compute; reflexivity].
   - vm_compute. reflexivity.
 Qed.
+
+(* ------------------------------------------------------------------ 5. every operation can be driven to its return *)
+
+(* no path of the program is longer than n actions *)
+Fixpoint depth_le (n : nat) (p : prog) : Prop :=
+  match n with
+  | O => match p with Ret _ => True | _ => False end
+  | S m =>
+      match p with
+      | Ret _ => True
+      | Load _ k => forall o, depth_le m (k o)
+      | Reserve _ k => forall o, depth_le m (k o)
+      | LoadAndDelete _ k => forall o, depth_le m (k o)
+      | Delete _ k => depth_le m k
+      | CompareAndDelete _ _ k => forall b, depth_le m (k b)
+      | Lock _ k => depth_le m k
+      | Unlock _ k => depth_le m k
+      | ReadSF _ k => forall s, depth_le m (k s)
+      | WriteSF _ _ k => depth_le m k
+      | Fs _ k => forall r, depth_le m (k r)
+      end
+  end.
+
+Definition DEPTH : nat := 16.
+
+Ltac d_step :=
+  match goal with
+  | |- True => exact I
+  | |- forall _, _ => intro
+  | |- depth_le _ (if ?b then _ else _) => destruct b
+  | |- depth_le _ (match ?x with _ => _ end) => destruct x
+  | |- depth_le _ _ => progress cbn
+  end.
+
+Lemma depth_prog_of : forall reqauth o, depth_le DEPTH (prog_of reqauth o).
+Proof.
+  intros reqauth o. unfold DEPTH.
+  destruct o; cbn [prog_of];
+    unfold prog_auth, prog_attach, prog_walk, prog_open, prog_create, prog_read, prog_write, prog_statlike,
+           prog_clunk, prog_remove, attach_rest, get_ref, new_ref, del_ref, unlock_opt, ret;
+    repeat d_step.
+Qed.
+
+(* weight of a thread: twice the remaining depth, plus one while it is not inside a FileSys call
+   (entering a call keeps the program and clears that one) *)
+Definition wt_ok (th : thread) (w : nat) : Prop :=
+  exists n, depth_le n (t_prog th) /\ w = (2 * n + (if t_incall th then 0 else 1))%nat.
+
+Definition total_ok (s : state) (W : nat) : Prop :=
+  exists ws, Forall2 wt_ok (threads s) ws /\ (sum_list ws <= W)%nat.
+
+Lemma step_thread_weight : forall s j s' th w,
+  threads s !! j = Some th -> wt_ok th w -> step s j = Some s' ->
+  exists th' w', threads s' = <[j := th']> (threads s) /\ wt_ok th' w' /\ (w' < w)%nat.
+Proof.
+  intros s j s' th w Hj (n & Hd & ->) H. unfold step in H. rewrite Hj in H.
+  destruct (t_prog th) as [r|f k|f k|f k|f k|f q k|q k|q k|q k|q g k|c k] eqn:Hp.
+  - discriminate.
+  - destruct n as [|m]; [destruct Hd|]. cbn [depth_le] in Hd. injection H as <-. cbn.
+    eexists _, _. split; [reflexivity|]. split; [exists m; split; [apply Hd | reflexivity]|]. cbn. destruct (t_incall th); lia.
+  - destruct n as [|m]; [destruct Hd|]. cbn [depth_le] in Hd. destruct (refs s !! f); injection H as <-; cbn;
+      (eexists _, _; split; [reflexivity|]; split; [exists m; split; [apply Hd | reflexivity]|]; cbn; destruct (t_incall th); lia).
+  - destruct n as [|m]; [destruct Hd|]. cbn [depth_le] in Hd. injection H as <-. cbn.
+    eexists _, _. split; [reflexivity|]. split; [exists m; split; [apply Hd | reflexivity]|]. cbn. destruct (t_incall th); lia.
+  - destruct n as [|m]; [destruct Hd|]. cbn [depth_le] in Hd. injection H as <-. cbn.
+    eexists _, _. split; [reflexivity|]. split; [exists m; split; [apply Hd | reflexivity]|]. cbn. destruct (t_incall th); lia.
+  - destruct n as [|m]; [destruct Hd|]. cbn [depth_le] in Hd. injection H as <-. cbn.
+    eexists _, _. split; [reflexivity|]. split; [exists m; split; [apply Hd | reflexivity]|]. cbn. destruct (t_incall th); lia.
+  - destruct n as [|m]; [destruct Hd|]. cbn [depth_le] in Hd. destruct (owner s !! q); [discriminate|]. injection H as <-. cbn.
+    eexists _, _. split; [reflexivity|]. split; [exists m; split; [apply Hd | reflexivity]|]. cbn. destruct (t_incall th); lia.
+  - destruct n as [|m]; [destruct Hd|]. cbn [depth_le] in Hd. destruct (owner s !! q); injection H as <-; cbn.
+    + eexists _, _. split; [reflexivity|]. split; [exists m; split; [apply Hd | reflexivity]|]. cbn. destruct (t_incall th); lia.
+    + eexists _, _. split; [reflexivity|]. split; [exists O; split; [exact I | reflexivity]|]. cbn. destruct (t_incall th); lia.
+  - destruct n as [|m]; [destruct Hd|]. cbn [depth_le] in Hd. injection H as <-. cbn.
+    eexists _, _. split; [reflexivity|]. split; [exists m; split; [apply Hd | reflexivity]|]. cbn. destruct (t_incall th); lia.
+  - destruct n as [|m]; [destruct Hd|]. cbn [depth_le] in Hd. injection H as <-. cbn.
+    eexists _, _. split; [reflexivity|]. split; [exists m; split; [apply Hd | reflexivity]|]. cbn. destruct (t_incall th); lia.
+  - destruct n as [|m]; [destruct Hd|]. destruct (t_incall th) eqn:Hc; injection H as <-; cbn.
+    + cbn [depth_le] in Hd. eexists _, _. split; [reflexivity|]. split; [exists m; split; [apply Hd | reflexivity]|]. cbn. lia.
+    + eexists _, _. split; [reflexivity|]. split; [exists (S m); split; [cbn [t_prog]; rewrite Hp; exact Hd | reflexivity]|]. cbn. lia.
+Qed.
+
+Lemma sum_list_insert_lt : forall (ws : list nat) j w w',
+  ws !! j = Some w -> (w' < w)%nat -> (sum_list (<[j := w']> ws) < sum_list ws)%nat.
+Proof.
+  induction ws as [|x ws IH]; intros j w w' Hj Hlt; [rewrite lookup_nil in Hj; discriminate|].
+  destruct j as [|j]; cbn in *.
+  - injection Hj as ->. lia.
+  - specialize (IH _ _ _ Hj Hlt). lia.
+Qed.
+
+Lemma step_total : forall s j s' W,
+  total_ok s W -> step s j = Some s' -> exists W', (W' < W)%nat /\ total_ok s' W'.
+Proof.
+  intros s j s' W (ws & HF & Hs) H.
+  assert (Hj : exists th, threads s !! j = Some th).
+  { unfold step in H. destruct (threads s !! j) as [th|]; [exists th; reflexivity | discriminate]. }
+  destruct Hj as [th Hj].
+  destruct (Forall2_lookup_l _ _ _ _ _ HF Hj) as (w & Hw & Hok).
+  destruct (step_thread_weight _ _ _ _ _ Hj Hok H) as (th' & w' & Ht & Hok' & Hlt).
+  exists (sum_list (<[j := w']> ws)). split.
+  - pose proof (sum_list_insert_lt _ _ _ _ Hw Hlt). lia.
+  - exists (<[j := w']> ws). split; [|lia]. rewrite Ht. apply Forall2_insert; assumption.
+Qed.
+
+Definition all_done (s : state) : Prop := forall i th, threads s !! i = Some th -> is_done th = true.
+
+Lemma not_all_done : forall s, forallb is_done (threads s) = false ->
+  exists i th, threads s !! i = Some th /\ is_done th = false.
+Proof.
+  intros s H. induction (threads s) as [|x l IH]; [discriminate|]. cbn in H.
+  destruct (is_done x) eqn:E.
+  - cbn in H. destruct (IH H) as (i & th & Hi & Hd). exists (S i), th. split; assumption.
+  - exists O, x. split; [reflexivity | exact E].
+Qed.
+
+Lemma completion_from : forall W s, inv s -> total_ok s W -> exists sched, all_done (run sched s).
+Proof.
+  induction W as [W IH] using lt_wf_ind. intros s I T.
+  destruct (forallb is_done (threads s)) eqn:E.
+  - exists []. cbn. intros i th Hi. rewrite forallb_forall in E. apply E.
+    apply elem_of_list_In. eapply elem_of_list_lookup_2. exact Hi.
+  - destruct (progress s I (not_all_done s E)) as (j & s' & Hs).
+    destruct (step_total _ _ _ _ T Hs) as (W' & Hlt & T').
+    destruct (IH W' Hlt s' (inv_step _ _ _ I Hs) T') as [sched Hd].
+    exists (j :: sched). cbn [run fold_left]. unfold step_or_stay. rewrite Hs. exact Hd.
+Qed.
+
+Lemma total_run : forall sched s W, total_ok s W -> total_ok (run sched s) W.
+Proof.
+  induction sched as [|j sched IH]; intros s W T; cbn [run fold_left]; [exact T|].
+  apply IH. unfold step_or_stay. destruct (step s j) as [s'|] eqn:E; [|exact T].
+  destruct (step_total _ _ _ _ T E) as (W' & Hlt & ws & HF & Hs). exists ws. split; [exact HF | lia].
+Qed.
+
+Lemma total_init : forall reqauth ops, total_ok (init reqauth ops) ((2 * DEPTH + 1) * length ops).
+Proof.
+  intros reqauth ops. exists (map (fun _ => (2 * DEPTH + 1)%nat) ops). split.
+  - unfold init. cbn [threads]. apply Forall2_same_length_lookup_2.
+    + rewrite imap_length, map_length. reflexivity.
+    + intros i th w Hi Hw. rewrite list_lookup_imap in Hi. rewrite list_lookup_fmap in Hw.
+      destruct (ops !! i) as [os|]; cbn in Hi, Hw; [|discriminate]. injection Hi as <-. injection Hw as <-.
+      exists DEPTH. split; [apply depth_prog_of | reflexivity].
+  - induction ops as [|x l IH]; cbn [map sum_list length] in *; lia.
+Qed.
+
+(* from EVERY reachable state the scheduler can drive every operation to its return *)
+Lemma completion : forall reqauth ops sched,
+  exists sched', all_done (run sched' (run sched (init reqauth ops))).
+Proof.
+  intros reqauth ops sched. eapply completion_from.
+  - apply inv_reachable.
+  - apply total_run, total_init.
+Qed.
+
+(* and no schedule, however long, makes more than (2*DEPTH+1) steps per operation *)
+Fixpoint effective (sched : list nat) (s : state) : nat :=
+  match sched with
+  | [] => O
+  | j :: r => match step s j with Some s' => S (effective r s') | None => effective r s end
+  end.
+
+Lemma effective_bound : forall sched s W, total_ok s W -> (effective sched s <= W)%nat.
+Proof.
+  induction sched as [|j sched IH]; intros s W T; cbn [effective]; [lia|].
+  destruct (step s j) as [s'|] eqn:E; [|apply IH, T].
+  destruct (step_total _ _ _ _ T E) as (W' & Hlt & T'). specialize (IH _ _ T'). lia.
+Qed.
